@@ -67,6 +67,58 @@ TABLE = {
                                      "        let mut remove = vec![false; edge_count];"),
     "unwrap-to-expect": ("src/strict/open_hypergraph/arrow.rs",
                          ".coequalize_vertices(&q).unwrap();", ".coequalize_vertices(&q).expect(\"coequalizer preserves labels\");"),
+    "vec-bincount-for-each": ("src/array/vec/vec_array.rs",
+                              "        for &idx in self.iter() {\n            counts[idx] += 1;\n        }",
+                              "        self.iter().for_each(|&idx| counts[idx] += 1);"),
+    "vec-zero-filter-chain": ("src/array/vec/vec_array.rs",
+                              """        let mut zero_indices = Vec::with_capacity(self.len());
+        for (i, &val) in self.iter().enumerate() {
+            if val == 0 {
+                zero_indices.push(i);
+            }
+        }
+        VecArray(zero_indices)""",
+                              """        VecArray(
+            self.iter()
+                .enumerate()
+                .filter(|(_, &val)| val == 0)
+                .map(|(i, _)| i)
+                .collect(),
+        )"""),
+    "vec-arange-collect": ("src/array/vec/vec_array.rs",
+                           """        let n = stop - start;
+        let mut v = Vec::with_capacity(n);
+        for i in 0..n {
+            v.push(start + i);
+        }
+        VecArray(v)""",
+                           """        VecArray((*start..*stop).collect())"""),
+    "vec-gather-loop": ("src/array/vec/vec_array.rs",
+                        "        VecArray(idx.iter().map(|i| self.0[*i].clone()).collect())",
+                        "        let mut out = Vec::with_capacity(idx.len());\n        for &i in idx {\n            out.push(self.0[i].clone());\n        }\n        VecArray(out)"),
+    "vec-scatter-assign-index-loop": ("src/array/vec/vec_array.rs",
+                                      "        for (i, x) in ixs.iter().zip(values.iter()) {\n            self[*i] = x.clone();\n        }",
+                                      "        for k in 0..ixs.len().min(values.len()) {\n            self[ixs[k]] = values[k].clone();\n        }"),
+    "vec-ssa-zip": ("src/array/vec/vec_array.rs",
+                    "        for i in 0..ixs.len() {\n            self[ixs[i]] -= rhs[i];\n        }",
+                    "        assert!(rhs.len() >= ixs.len());\n        for (&k, &d) in ixs.iter().zip(rhs.iter()) {\n            self[k] -= d;\n        }"),
+    "vec-cumsum-index": ("src/array/vec/vec_array.rs",
+                         """        let mut v = Vec::with_capacity(self.len() + 1);
+        let mut a = 0;
+        for x in self.iter() {
+            v.push(a);
+            a += x;
+        }
+        v.push(a); // don't forget the total sum!
+        VecArray(v)""",
+                         """        let mut v = Vec::with_capacity(self.len() + 1);
+        v.push(0);
+        let mut a = 0;
+        for x in self.iter() {
+            a += x;
+            v.push(a);
+        }
+        VecArray(v)"""),
     "compose-guard-not-eq": ("src/strict/open_hypergraph/arrow.rs",
                              "if self.target() != other.source() {",
                              "if !(self.target() == other.source()) {"),
